@@ -76,6 +76,10 @@ def rule_R2(ctx, f):
         for i, w in enumerate(ws):
             ctx.ob(rid, "hash_labels|write#%d|every-element" % i, hc.every_element(b, w) is True,
                    "hash_labels must hash the value of every declared name: no path through the loop body may reach the next name without the write", site=w.span)
+    if f.body(MV + "get_label_values") is None and seq_ok(_values_seq_in_get_metric_with(f)):
+        # the helper is gone, its only caller collects the values itself (checked at the call of get_or_create_metric, R3 `get_metric_with|values`)
+        ctx.ob(rid, "get_label_values|push#0", True, "get_metric_with collects labels[name] for each declared variable label name in declared order", site=f.body(MV + "get_metric_with").raw["span"]["at"])
+        return
     b = ctx.anchor(rid, "get_label_values", f.body(MV + "get_label_values"))
     if b:
         # what is returned on success: the Vec that was filled, or a collect::<Result<Vec<_>>>() of the per-name lookups
@@ -94,6 +98,23 @@ def rule_R2(ctx, f):
         ctx.ob(rid, "get_label_values|push#0", seq_ok(seq),
                "get_label_values must collect labels[name] for each declared variable label name in declared order (found %s)" % seqeval.show_seq(seq), site=b.raw["span"]["at"])
         ctx.ob(rid, "get_label_values|returns-collected", seq is not None, "get_label_values must return the values it collected", site=b.raw["span"]["at"])
+
+
+def _values_seq_in_get_metric_with(f):
+    """The sequence of values get_metric_with hands to get_or_create_metric when it collects them itself (no get_label_values helper); None when it cannot be evaluated."""
+    from pvrules import seqeval
+    b = f.body(MV + "get_metric_with")
+    if b is None:
+        return None
+    gs = b.calls_to("MetricVecCore::get_or_create_metric")
+    if len(gs) != 1:
+        return None
+    t = peel(seqeval._unwrap_payload(gs[0].args[2], None, b), transparent=["Deref::deref", "Vec::as_slice", "AsRef::as_ref"])
+    if is_call(t, "Iterator::collect"):
+        return seqeval.iter_seq(b, t[2][0])
+    if seqeval.is_vec_local(b, t):
+        return seqeval.vec_seq(b, t)
+    return None
 
 
 def _hash_then_create(ctx, rid, f, m, hashfn, vals_pred, what):
@@ -133,7 +154,10 @@ def rule_R3(ctx, f):
     _hash_then_create(ctx, rid, f, "get_metric_with_label_values", "hash_label_values", lambda b, t: t == P2, "the caller's `vals`")
 
     def vals_from_labels(b, t):
-        return is_call(t, "MetricVecCore::get_label_values") and peel(t[2][0]) == P1 and peel(t[2][1]) == P2
+        if is_call(t, "MetricVecCore::get_label_values") and peel(t[2][0]) == P1 and peel(t[2][1]) == P2:
+            return True
+        seq = _values_seq_in_get_metric_with(f)
+        return seq is not None and [sg[:3] for sg in seq] == [("each", VARLABELS, (("lookup", P2),))]
     _hash_then_create(ctx, rid, f, "get_metric_with", "hash_labels", vals_from_labels, "get_label_values(labels)")
     b = ctx.anchor(rid, "get_or_create_metric", f.body(MV + "get_or_create_metric"))
     if b:
